@@ -76,6 +76,21 @@ func (s FSig) pname(i int, mode string) string {
 	return fmt.Sprintf("a%d", i)
 }
 
+// namedResNames: result names a generator is likely to use itself.
+var namedResNames = []string{"err", "f", "success", "res3", "res4", "res5"}
+
+// withNamedResults rewrites "func(...) (T0, T1)" into "func(...) (err T0, f T1)".
+func withNamedResults(ftype string, r []string) string {
+	if len(r) == 0 {
+		return ftype
+	}
+	var rn []string
+	for i, t := range r {
+		rn = append(rn, namedResNames[i%len(namedResNames)]+" "+t)
+	}
+	return strings.TrimSuffix(ftype, resList(r)) + " (" + strings.Join(rn, ", ") + ")"
+}
+
 func resList(r []string) string {
 	switch len(r) {
 	case 0:
@@ -201,7 +216,11 @@ func PlumbItem(id, kind string, s FSig) FItem {
 	var body strings.Builder
 	switch kind {
 	case "curry", "flip", "apply", "uncurrycurry":
-		fmt.Fprintf(&sb, "var F%s %s = impl%s\n\n", id, ftypeOf(s.P, 0, s.R, s.Mode), id)
+		ft := ftypeOf(s.P, 0, s.R, s.Mode)
+		if s.NamedResults {
+			ft = withNamedResults(ft, s.R)
+		}
+		fmt.Fprintf(&sb, "var F%s %s = impl%s\n\n", id, ft, id)
 	}
 	switch kind {
 	case "curry":
@@ -233,6 +252,9 @@ func PlumbItem(id, kind string, s FSig) FItem {
 			innerMode = "unnamed" // outer parameter called param_1, inner parameters need renaming
 		}
 		inner := ftypeOf(s.P[1:], 1, s.R, innerMode)
+		if s.NamedResults {
+			inner = withNamedResults(inner, s.R)
+		}
 		outer := "func(" + strings.TrimPrefix(strings.TrimSuffix(ftypeOf(s.P[:1], 0, nil, s.Mode), ")"), "func(") + ") " + inner
 		retkw := "return "
 		if len(s.R) == 0 {
